@@ -52,7 +52,10 @@ func wf(ch byte, raw []byte, note string) wireFrame {
 
 var wireCounter uint64
 
-const wireTimeout = 5 * time.Second
+// wireTimeout guards every network wait. It is the generous bound: no verdict is
+// "nothing within N seconds" — a miss only counts once the server-side state
+// shows that nothing more can come (converters done, consumer queues drained).
+const wireTimeout = generous
 
 type wireOutcome struct {
 	SessionDied   string `json:"publisher_session,omitempty"`
@@ -121,9 +124,20 @@ func runWire(t *testing.T, hostile []wireFrame, rot int) *wireOutcome {
 	if st == nil {
 		t.Fatalf("machinery: stream %s not registered after RECORD", path)
 	}
+	conv, err := watch.bind(st) // before the first frame is sent
+	if err != nil {
+		t.Fatalf("machinery: %v", err)
+	}
+	defer watch.release(conv)
 	rtpRec, flvRec := mediah.NewRec("wire-rtp"), mediah.NewRec("wire-flv")
-	st.StartConsume(rtpRec, media.RTPPacket, "c07-wire")
-	st.StartConsume(flvRec, media.FLVPacket, "c07-wire")
+	rtpCID := st.StartConsume(rtpRec, media.RTPPacket, "c07-wire")
+	flvCID := st.StartConsume(flvRec, media.FLVPacket, "c07-wire")
+	published := 0 // frames the interleaved reader hands to the stream
+	count := func(ch byte, raw []byte) {
+		if _, err := wire(ch, raw); err == nil {
+			published++
+		}
+	}
 	player, err := rtspc.Dial(s.Addr(), wireTimeout)
 	if err != nil {
 		t.Fatalf("machinery: dial: %v", err)
@@ -143,12 +157,14 @@ func runWire(t *testing.T, hostile []wireFrame, rot int) *wireOutcome {
 		if err := send(pub, prefix[i].Ch, prefix[i].bytes()); err != nil {
 			t.Fatalf("machinery: writing the valid prefix: %v", err)
 		}
+		count(prefix[i].Ch, prefix[i].bytes())
 		send(pub2, prefix[i].Ch, prefix[i].bytes())
 	}
 	for _, h := range hostile {
 		if _, err := wire(h.Ch, h.raw); err != nil {
 			out.refusedFrames++
 		}
+		count(h.Ch, h.raw)
 		if err := send(pub, h.Ch, h.raw); err != nil {
 			out.SessionDied = "writing a hostile frame failed: " + err.Error()
 		}
@@ -159,6 +175,7 @@ func runWire(t *testing.T, hostile []wireFrame, rot int) *wireOutcome {
 	for j := range pa {
 		for _, p := range pa[j].pkts {
 			send(pub, p.Channel, p.Data) // errors show up in the oracle below
+			published++
 			wantA = append(wantA, p.Data)
 		}
 		for _, p := range pb[j].pkts {
@@ -169,6 +186,7 @@ func runWire(t *testing.T, hostile []wireFrame, rot int) *wireOutcome {
 
 	// (a) the publisher's session is alive: it answers a request
 	if out.SessionDied == "" {
+		pub.Timeout = generous // only a closed connection or a wedged session goroutine fail this
 		r, err := pub.Do("OPTIONS", s.RTSP(path), nil, nil)
 		switch {
 		case err != nil:
@@ -181,41 +199,48 @@ func runWire(t *testing.T, hostile []wireFrame, rot int) *wireOutcome {
 	if now := media.Get(path); now != st {
 		out.StreamGone = fmt.Sprintf("the path now resolves to %p, the publisher's stream was %p", now, st)
 	}
-	// bursts of megabytes: be patient on a loaded machine
-	wireTimeout := wireTimeout
-	if len(hostile) > 3 {
-		wireTimeout *= 8
+	// (c) continuation, judged on bytes (the server re-parses the frames). The
+	// OPTIONS above was answered by the session goroutine that also feeds the
+	// stream, so every frame sent before it has been handed to the stream; the
+	// verdicts wait for the state in which nothing more can come.
+	if out.SessionDied != "" || out.StreamGone != "" {
+		return out
 	}
-	// (c) continuation, judged on bytes (the server re-parses the frames)
 	lastA := wantA[len(wantA)-1]
-	mediah.WaitFor(wireTimeout, func() bool {
+	mediah.WaitFor(generous, func() bool {
 		got := rtpRec.Got()
-		return len(got) > 0 && bytes.Equal(got[len(got)-1].(*rtp.Packet).Data, lastA)
+		return (len(got) > 0 && bytes.Equal(got[len(got)-1].(*rtp.Packet).Data, lastA)) || (rtpRec.Len() >= published || consumerDrained(st, rtpCID))
 	})
 	var gotData [][]byte
 	for _, g := range rtpRec.Got() {
 		gotData = append(gotData, g.(*rtp.Packet).Data)
 	}
 	if len(gotData) < len(wantA) {
-		out.RTPMiss = fmt.Sprintf("RTP consumer received %d packets, the probe alone has %d", len(gotData), len(wantA))
+		out.RTPMiss = fmt.Sprintf("RTP consumer received %d packets, the probe alone has %d (consumer queue drained: %v)", len(gotData), len(wantA), consumerDrained(st, rtpCID))
 	} else {
 		tail := gotData[len(gotData)-len(wantA):]
 		for i := range wantA {
 			if !bytes.Equal(tail[i], wantA[i]) {
-				out.RTPMiss = fmt.Sprintf("RTP consumer: probe packet %d of %d is not at its place at the end of the delivered list", i, len(wantA))
+				out.RTPMiss = fmt.Sprintf("RTP consumer: probe packet %d of %d is not at its place at the end of the delivered list (consumer queue drained: %v)", i, len(wantA), consumerDrained(st, rtpCID))
 				break
 			}
 		}
 	}
+	if wedged := watch.waitDone(conv, published); wedged != "" {
+		out.FLVMiss = wedged
+		return out
+	}
 	flvHas := func(tag []byte) bool {
 		for _, g := range flvRec.Got() {
-			if tg, ok := g.(*flv.Tag); ok && bytes.Contains(tg.Data, tag) {
+			if tg, ok := g.(*flv.Tag); ok && len(tg.Data) <= probeTagMax && bytes.Contains(tg.Data, tag) {
 				return true
 			}
 		}
 		return false
 	}
-	mediah.WaitFor(wireTimeout, func() bool { return flvHas(pa[len(pa)-1].vtag) && flvHas(pa[len(pa)-1].atag) })
+	mediah.WaitFor(generous, func() bool {
+		return (flvHas(pa[len(pa)-1].vtag) && flvHas(pa[len(pa)-1].atag)) || consumerDrained(st, flvCID)
+	})
 	miss := 0
 	for _, au := range pa {
 		if !flvHas(au.vtag) {
@@ -226,18 +251,17 @@ func runWire(t *testing.T, hostile []wireFrame, rot int) *wireOutcome {
 		}
 	}
 	if miss > 0 {
-		out.FLVMiss = fmt.Sprintf("FLV consumer: %d of %d probe units never appeared as tags", miss, 2*len(pa))
+		out.FLVMiss = fmt.Sprintf("FLV consumer: after the converters had worked off all %d packets, %d of %d probe units are missing (%s)", published, miss, 2*len(pa), watch.describe(conv, published))
 	}
 	r := &rig{s: st}
-	if !mediah.WaitFor(wireTimeout, func() bool {
-		for _, au := range pa {
-			if au.fragmented && r.hlsHas(au.vtag) {
-				return true
-			}
+	var look [][]byte
+	for _, au := range pa {
+		if au.fragmented {
+			look = append(look, au.vtag)
 		}
-		return false
-	}) {
-		out.HLSMiss = "HLS: no segment holds one of the probe's fragmented key frames"
+	}
+	if !r.hlsHasAny(look, nil) { // the segmenter runs inside the TS muxer goroutine, which is done: one look
+		out.HLSMiss = "HLS: after the TS muxer had worked off its queue, no segment holds one of the probe's fragmented key frames"
 	}
 	// (d) the other session: the player receives what the second publisher sent, in order
 	var played [][]byte
@@ -280,9 +304,25 @@ func runWire(t *testing.T, hostile []wireFrame, rot int) *wireOutcome {
 		}
 	}
 	if k != len(wantB) {
-		out.OtherSession = fmt.Sprintf("the player of the other stream received %d of its publisher's %d probe packets in order (%d frames in all)", k, len(wantB), len(played))
+		if st2 := media.Get(path2); st2 != nil && !allConsumersDrained(st2) {
+			// the server still holds packets for the player: no verdict from this case
+			evid.Class("wire: inconclusive (other session's packets still queued in the server at the bound)")
+			return out
+		}
+		out.OtherSession = fmt.Sprintf("the player of the other stream received %d of its publisher's %d probe packets in order (%d frames in all); the server's queues for it are drained", k, len(wantB), len(played))
 	}
 	return out
+}
+
+// allConsumersDrained: every consumer of s has an empty queue and nothing in
+// flight between queue and consumer.
+func allConsumersDrained(s *media.Stream) bool {
+	for _, ci := range s.Info(true).Consumptions {
+		if !consumerDrained(s, media.CID(ci.ID)) {
+			return false
+		}
+	}
+	return true
 }
 
 func judgeWire(t *testing.T, name, class string, hostile []wireFrame, refusedClass bool, rot int) {
